@@ -14,6 +14,7 @@ type GenCfg struct {
 	LongLen   int  // length of long strings
 	NoNilDist bool // never mark containers as nil
 	SubTick   bool // allow dates that are not tick aligned / not UTC
+	FullMsg   int  // percent chance that a message has every field set (0 = default mix)
 }
 
 func DefaultCfg() GenCfg {
@@ -189,6 +190,9 @@ func (g *Gen) def(d *schema.Def, budget int) Value {
 	case schema.KMessage:
 		v := Value{}
 		mode := r.Intn(4) // 0: none, 1: all, else random subset
+		if g.Cfg.FullMsg > 0 && r.Intn(100) < g.Cfg.FullMsg {
+			mode = 1
+		}
 		for _, f := range d.Fields {
 			if g.minOfType(f.Type) > budget-1 {
 				continue
